@@ -87,7 +87,7 @@ def _transform_back(var_transformed: Var) -> Calc:
     inputs = var_transformed.dist_node.inputs
     kwinputs = var_transformed.dist_node.kwinputs
 
-    return Calc(fn, var_transformed.value_node, *inputs, **kwinputs)  # type: ignore
+    return Calc(fn, var_transformed, *inputs, **kwinputs)  # type: ignore
 
 
 class GraphBuilder:
